@@ -1909,7 +1909,7 @@ class _ORMJoin(expression.Join):
             )
 
             if sj is not None:
-                if isouter:
+                if isouter or full:
                     # note this is an inner join from secondary->right
                     right = sql.join(secondary, right, sj)
                     onclause = pj
